@@ -96,6 +96,16 @@ theorem handlers_well_formed (jid pass : Option Bytes) (cert : Bool) (flags : Na
     HW (exec (fresh jid pass cert flags) ops) :=
   Lemmas.ConnC04.handlers_well_formed jid pass cert flags ops
 
+/-- the positive part next to known finding D52: for every operation other than a connect (whose
+    `_conn_reset` empties the send queue) and the release of the object, an element of the send queue —
+    in particular one put back by `_sm_queue_resend` — stays queued or is written in that step.  The
+    full statement ("… until it is written") is FALSE across a connect: `resend_lost_on_second_loss`. -/
+theorem requeued_until_reset_partial (c : Conn) (op : Op) (e : QElem) (he : e ∈ c.queue)
+    (hop : match op with | .connect _ => False | .release => False | _ => True) :
+    (∃ e' ∈ (step c op).queue, e'.item = e.item ∧ e'.owner = e.owner ∧ e'.snap = e.snap) ∨
+    (∃ r ∈ (step c op).tx.drop c.tx.length, r.item = e.item ∧ r.owner = e.owner) :=
+  Lemmas.ConnC04.requeued_until_reset_partial c op e he hop
+
 /-! ### release by acknowledgement -/
 
 theorem ack_releases_exactly (c : Conn) (st : XTree) (v : Nat)
